@@ -88,7 +88,7 @@ let run_world op kv (names : string list)
     (runner : bool -> (z * handle option) list -> (string -> z) -> z list -> z -> (((z * handle option) list * status) * record list))
     (dests : string list) =
   (* ro=: the user may not write the destination (nor create files): the command fails, nothing changes *)
-  if get kv "ro" "" <> "" then obs "%s err" op else
+  if get kv "ro" "" <> "" && geti kv "roskip" 0 = 0 then obs "%s err" op else
   let nostatus = geti kv "nostatus" 0 = 1 in
   match textout kv with
   | ToBad -> obs "%s %s" op (if nostatus then "done" else "err")
